@@ -406,8 +406,11 @@ class ComposedNode(ConfigNode):
         for child in self._children.values():
             fix = False
             if self._delete is None:
-                if child._implicit_delete != self._implicit_delete:
-                    child._implicit_delete = self._implicit_delete
+                # what the container itself inherits, else its type's default - as for children attached
+                # to a container that inherits nothing (see _get_child_kwargs)
+                implicit_delete = notnone_or(self._implicit_delete, self._default_delete or None)
+                if child._implicit_delete != implicit_delete:
+                    child._implicit_delete = implicit_delete
                     fix = True
             if self._allow_new is None:
                 if child._implicit_allow_new != self._implicit_allow_new:
